@@ -72,6 +72,11 @@ func hdrArrayElems(v ssa.Value) []ssa.Value {
 			}
 		}
 	}
+	return hdrAllocElems(arr)
+}
+
+// hdrAllocElems: the values stored at the constant indexes of a local array, in index order.
+func hdrAllocElems(arr *ssa.Alloc) []ssa.Value {
 	if arr == nil || arr.Referrers() == nil {
 		return nil
 	}
@@ -105,6 +110,30 @@ func hdrArrayElems(v ssa.Value) []ssa.Value {
 		}
 	}
 	return out
+}
+
+// hdrSliceParamElem: v is an element, at a running index, of a slice parameter (`for _, val := range vals`
+// in a variadic helper): that parameter.
+func hdrSliceParamElem(v ssa.Value) *ssa.Parameter {
+	u, ok := v.(*ssa.UnOp)
+	if !ok || u.Op != token.MUL {
+		return nil
+	}
+	ia, ok := u.X.(*ssa.IndexAddr)
+	if !ok {
+		return nil
+	}
+	if _, isC := ia.Index.(*ssa.Const); isC {
+		return nil
+	}
+	prm, ok := ia.X.(*ssa.Parameter)
+	if !ok {
+		return nil
+	}
+	if _, isSl := prm.Type().Underlying().(*types.Slice); !isSl {
+		return nil
+	}
+	return prm
 }
 
 func hdrBefore(a, b ssa.Instruction) bool {
@@ -145,6 +174,8 @@ func hdrItems(p *Program, fn *ssa.Function, depth int) (out []hdrItem) {
 			v := cs.Common().Args[1]
 			if el := hdrArrayElems(v); el != nil {
 				out = append(out, hdrItem{cs, el})
+			} else if prm := hdrSliceParamElem(v); prm != nil {
+				out = append(out, hdrItem{cs, []ssa.Value{prm}}) // every element of the list handed in
 			} else {
 				out = append(out, hdrItem{cs, []ssa.Value{v}})
 			}
@@ -212,6 +243,15 @@ func hdrItems(p *Program, fn *ssa.Function, depth int) (out []hdrItem) {
 				}
 				if el := hdrArrayElems(v); el != nil {
 					vals = append(vals, el...)
+				} else if sl, ok := v.(*ssa.Slice); ok && sl.Low == nil && sl.High == nil {
+					// the list of a variadic call
+					if al, ok := sl.X.(*ssa.Alloc); ok {
+						if el := hdrAllocElems(al); el != nil {
+							vals = append(vals, el...)
+							continue
+						}
+					}
+					vals = append(vals, v)
 				} else {
 					vals = append(vals, v)
 				}
@@ -358,6 +398,9 @@ func hdrRoleOf(fn *ssa.Function, v ssa.Value) hdrRole {
 	if _, isC := v.(*ssa.Const); isC {
 		return hdrRole{kind: "other"}
 	}
+	if _, isSl := v.Type().Underlying().(*types.Slice); isSl {
+		return hdrRole{kind: "other"} // a list whose elements are not known here
+	}
 	if c, ok := hdrContainerOf(v); ok {
 		for _, st := range hdrStoresInto(fn, c) {
 			if hdrIsMarker(st.val) {
@@ -371,7 +414,7 @@ func hdrRoleOf(fn *ssa.Function, v ssa.Value) hdrRole {
 
 func r27SectionHeader(c *RuleCtx) {
 	props := []string{"C09"}
-	nWriters := 0
+	nDv, nNone := 0, 0
 	fns := append([]*ssa.Function(nil), c.p.ZapFuncs...)
 	sort.Slice(fns, func(i, j int) bool { return fns[i].String() < fns[j].String() })
 	for _, fn := range fns {
@@ -395,7 +438,6 @@ func r27SectionHeader(c *RuleCtx) {
 		if len(marked) == 0 {
 			continue
 		}
-		nWriters++
 		name := funcShortName(fn)
 		key := "section-header/writer/" + name
 		what := "the per-field record of a section written in " + name + " is [doc values start, doc values end, dictionary offset] as three uvarints (the not-uninverted marker twice where the section has no doc values)"
@@ -453,6 +495,11 @@ func r27SectionHeader(c *RuleCtx) {
 			roles = append(roles, r)
 			names = append(names, r.kind)
 		}
+		if len(roles) > 0 && roles[0].kind == "dv" {
+			nDv++
+		} else {
+			nNone++
+		}
 		okc := len(roles) == 3 && (roles[0].kind == "none" || roles[0].kind == "dv") && roles[0].kind == roles[1].kind && roles[2].kind == "addr"
 		detail := fmt.Sprintf("the record is written as [%s]", strings.Join(names, ", "))
 		if okc && roles[0].kind == "dv" {
@@ -480,5 +527,5 @@ func r27SectionHeader(c *RuleCtx) {
 		}
 		c.add2(okc, props, key, c.pos(first), what, detail)
 	}
-	c.add2(nWriters >= 4, props, "section-header/writers", "-", "the writers of the per-field section record are found (inverted and synonym section, build and merge; confirmed by hand: 4)", fmt.Sprintf("found %d", nWriters))
+	c.add2(nDv >= 1 && nNone >= 1, props, "section-header/writers", "-", "writers of the per-field section record are found for a section with doc values (inverted) and for one without (synonym); confirmed by hand: two each, build and merge", fmt.Sprintf("found %d with doc values, %d without", nDv, nNone))
 }
